@@ -1,6 +1,7 @@
 package bcheck
 
 import (
+	"context"
 	"crypto/tls"
 	"fmt"
 	"net"
@@ -22,7 +23,7 @@ import (
 func init() {
 	Registry["C10"] = &Check{
 		Scenarios: c10Scenarios,
-		Rule: "the server side of a connection over TLS (crypto/tls on both ends of the in-memory transport): CER with Inband-Security-Id {absent, 0, 1} x applications {shared, unsupported, none, vendor-specific unsupported, wrong type} followed by RAR / STR / ACR in the same TLS record; one state machine serves 300 sequential peers (CER, then RAR / STR / ACR for the by-name, by-index and catch-all handlers), with the optional HandshakeNotify channel never read, drained, and read once (the application stays busy with its first peer); Disconnect-Peer requests among the application messages of every history; on the server side another peer has completed its capabilities exchange with the same state machine on a connection of its own before every history; message flag bits P and T rotate with the position in the history; server side: every history of <=4 (thorough 5) peer messages over {acceptable CER, CER without common application, CER lacking Origin-Host and every application AVP, retransmitted CER, DWR, RAR (app 0), RAA, CCR (app 4), ACR (app 3)}; client side (sm.Client.NewConn): every history of <=4 (thorough 5) messages over {success CEA, failing CEA (result code rotating over 5010, 1001, 3004, 1, 4001, 5012), application-less CEA, a CER sent by the peer, DWR, RAR, RAA, CCA} sent in reply to the CER; application handlers registered by short name, by index and as catch-all (three configurations; names and the catch-all through HandleFunc in the one-segment histories and through Handle with a handler object in the others), each after attempts to register CER / CEA / DWR by name and by index; each history delivered in one segment and one segment per message; and histories (one shorter, with an unsolicited success CEA added to the alphabet) on an accepted connection served by a state machine that is also the handler of an sm.Client whose dial has completed. Plus scheduled scenarios (preemption bound 2, thorough 3): the peer never answers the CER and sends application requests half an interval before, exactly at and half an interval after the instant the client's handshake gives up. One deterministic schedule per history on the instrumented build (the quantifier is over histories; the scheduler supplies determinism and an exact notion of quiescence). Oracle: the sequence of application-handler invocations equals the gate model (invoked iff the handshake succeeded earlier on this connection), refused registrations never run, and the built-in CEA/DWA are still produced.",
+		Rule: "scheduled (preemption bound 2, thorough 3): an application goroutine consumes HandshakeNotify and attaches a value to the connection context (Context / SetContext) at every instant relative to the serving goroutine, the peer sends RAR and CCR once it has the CEA; the server side of a connection over TLS (crypto/tls on both ends of the in-memory transport): CER with Inband-Security-Id {absent, 0, 1} x applications {shared, unsupported, none, vendor-specific unsupported, wrong type} followed by RAR / STR / ACR in the same TLS record; one state machine serves 300 sequential peers (CER, then RAR / STR / ACR for the by-name, by-index and catch-all handlers), with the optional HandshakeNotify channel never read, drained, and read once (the application stays busy with its first peer); Disconnect-Peer requests among the application messages of every history; on the server side another peer has completed its capabilities exchange with the same state machine on a connection of its own before every history; message flag bits P and T rotate with the position in the history; server side: every history of <=4 (thorough 5) peer messages over {acceptable CER, CER without common application, CER lacking Origin-Host and every application AVP, retransmitted CER, DWR, RAR (app 0), RAA, CCR (app 4), ACR (app 3)}; client side (sm.Client.NewConn): every history of <=4 (thorough 5) messages over {success CEA, failing CEA (result code rotating over 5010, 1001, 3004, 1, 4001, 5012), application-less CEA, a CER sent by the peer, DWR, RAR, RAA, CCA} sent in reply to the CER; application handlers registered by short name, by index and as catch-all (three configurations; names and the catch-all through HandleFunc in the one-segment histories and through Handle with a handler object in the others), each after attempts to register CER / CEA / DWR by name and by index; each history delivered in one segment and one segment per message; and histories (one shorter, with an unsolicited success CEA added to the alphabet) on an accepted connection served by a state machine that is also the handler of an sm.Client whose dial has completed. Plus scheduled scenarios (preemption bound 2, thorough 3): the peer never answers the CER and sends application requests half an interval before, exactly at and half an interval after the instant the client's handshake gives up. One deterministic schedule per history on the instrumented build (the quantifier is over histories; the scheduler supplies determinism and an exact notion of quiescence). Oracle: the sequence of application-handler invocations equals the gate model (invoked iff the handshake succeeded earlier on this connection), refused registrations never run, and the built-in CEA/DWA are still produced.",
 		Assume: []string{"single default schedule per history", "reference gate model {handshake done, closed}"},
 		QuickBudget: 120, ThoroughBudget: 1800,
 	}
@@ -201,6 +202,9 @@ func c10Scenarios(tier string) []*Scenario {
 		for _, at := range []time.Duration{time.Second / 2, time.Second, 3 * time.Second / 2} {
 			out = append(out, c10TimeoutTie(cfg, at, tb))
 		}
+	}
+	for _, cfg := range []string{"name", "index", "all"} {
+		out = append(out, c10NotifyConsumer(cfg, tb))
 	}
 	out = append(out, &Scenario{Name: "server/tls-connection", Seq: c10OverTLS})
 	for _, drain := range []string{"never", "always", "once"} {
@@ -632,6 +636,73 @@ func c10TimeoutTie(cfg string, at time.Duration, bound int) *Scenario {
 	}
 	return &Scenario{Name: fmt.Sprintf("client-timeout-tie/%s/requests-at-%v", cfg, at), Body: body, Check: check, Bound: bound, Horizon: 4 * time.Second,
 		Outcome: func(s *vs.Sched) string { return fmt.Sprint(c10tie.invoked, c10tieDial.err) }}
+}
+
+// c10NotifyConsumer: the application consumes HandshakeNotify and hangs a value of its own on the
+// connection it is handed (ctx := c.Context(); c.SetContext(context.WithValue(ctx, ...))), at
+// every possible instant relative to the serving goroutine. The peer sends an RAR and a CCR as soon
+// as it has the CEA: both reach the application's handlers, whatever the consumer's timing.
+type c10NotifyKey struct{}
+
+var c10notify struct {
+	run      *c10Run
+	notified bool
+	gotCEA   bool
+}
+
+func c10NotifyConsumer(cfg string, bound int) *Scenario {
+	body := func() {
+		st := &c10notify
+		st.run, st.notified, st.gotCEA = &c10Run{}, false, false
+		conn := vnet.NewConn("S")
+		conn.Pieces = 1
+		mach := sm.New(c10Settings())
+		c10Register(mach, cfg, st.run)
+		vs.GoNamed("app-handshake-notify", true, func() {
+			c, ok := mach.HandshakeNotify().Recv2()
+			if !ok {
+				return
+			}
+			st.notified = true
+			ctx := c.Context()
+			vs.Yield("application looks up its per-peer state")
+			c.SetContext(context.WithValue(ctx, c10NotifyKey{}, "application value"))
+		})
+		if _, err := diam.NewConn(conn, "peer", mach, dict.Default); err != nil {
+			panic(err)
+		}
+		vs.GoNamed("peer", true, func() {
+			p := &Peer{C: conn}
+			conn.Deliver(c10Msg("cer", 1))
+			if cea := p.Next(); cea == nil || cea.Hdr.Code != 257 {
+				return
+			}
+			st.gotCEA = true
+			conn.Deliver(c10Msg("rar", 2))
+			vs.Yield("env")
+			conn.Deliver(c10Msg("ccr", 3))
+		})
+	}
+	check := func(s *vs.Sched) string {
+		st := &c10notify
+		var v []string
+		if !st.gotCEA {
+			v = append(v, "the peer never received a CEA")
+		}
+		want := fmt.Sprint([]string{c10Expect(cfg, "rar", 2), c10Expect(cfg, "ccr", 3)})
+		if got := fmt.Sprint(st.run.invoked); st.gotCEA && got != want {
+			v = append(v, fmt.Sprintf("after a successful CER/CEA exchange the peer sent RAR and CCR: application handlers invoked %s, expected %s (the application's HandshakeNotify consumer attached a value to the connection's context; notified: %v)", got, want, st.notified))
+		}
+		if len(st.run.forbidden) > 0 {
+			v = append(v, fmt.Sprintf("handlers whose registration must be refused ran: %v", st.run.forbidden))
+		}
+		for _, p := range s.Panics() {
+			v = append(v, "panic: "+p)
+		}
+		return strings.Join(v, " | ")
+	}
+	return &Scenario{Name: "server/handshake-notify-consumer-updates-the-context/" + cfg, Body: body, Check: check, Bound: bound,
+		Outcome: func(s *vs.Sched) string { return fmt.Sprint(c10notify.run.invoked, c10notify.notified) }}
 }
 
 // c10ManyPeers: ONE state machine serves 300 peers one after the other. Each completes a
